@@ -333,6 +333,10 @@ benign("b-c17-loop-form", (RM, "                if pending_range.start >= range.
 
 benign("b-indent-start-of-file-accepted", (IR, "            if cursor == 0 {\n                break false;\n            }", "            if cursor == 0 {\n                break true;\n            }"))
 
+benign("b-parser-fold-to-for",
+       (EP, "                let (mut pairs, last_state) = target.char_indices().fold(\n                    (vec![], State::NameBegin),\n                    |(mut pairs, mut state), (pos, current_char)| {\n", "                let mut pairs = vec![];\n                let mut state = State::NameBegin;\n                for (pos, current_char) in target.char_indices() {\n                    {\n"),
+       (EP, "                        (pairs, state)\n                    },\n                );\n", "                    }\n                }\n                let last_state = state;\n"))
+
 with open(os.path.join(os.path.dirname(os.path.abspath(__file__)), "mutants.json"), "w") as f:
     json.dump(C, f, indent=1)
 print(len(C), "variants")
